@@ -3,12 +3,16 @@
    in-range coefficient vectors and byte strings - encode-then-decode returns the vector,
    every accepted byte string re-encodes to itself (so two byte strings never decode to the same
    vector), and where a+b+1 is a power of two every byte string is accepted.
-   NOT yet proved: the corresponding statements for hint_bit_pack/unpack (canonical hint
-   sections) and their composition into sig_decode/sig_encode; those are decided by the codec
-   streams (model vs code vs FIPS Alg 20/21, malformed-hint grammar, re-encode on the real code). *)
+   Proved as well (Proofs/HintPack.v, HintCanon.v, SigCanon.v): hint sections and whole signatures
+   are canonical - every signature byte string that sig_decode accepts is reproduced, byte for byte,
+   by sig_encode of the decoded (c~, z, h) (C08_signature_reencodes), so two different byte strings
+   are never read as the same signature (C08_sig_decode_injective); the decoders equal FIPS 204
+   Algorithms 21/23/27 on every byte string, so each malformed hint section the property names is
+   rejected (with the API error, never a panic).  The codec streams (model vs code vs FIPS Alg 16-21,
+   malformed-hint grammar, re-encode on the real code) tie these models to the crate. *)
 Require Import List ZArith. Import ListNotations.
 Require Import F204.Base.Util F204.Base.Mach F204.Gen.Params F204.Impl.Helpers F204.Impl.Conversion F204.Impl.Encodings
-  F204.Proofs.BitPackProofs F204.Proofs.HintProofs F204.Proofs.DecodeRefine.
+  F204.Proofs.BitPackProofs F204.Proofs.HintProofs F204.Proofs.DecodeRefine F204.Proofs.KeyRoundTrip F204.Proofs.HintCanon F204.Proofs.SigCanon.
 Open Scope Z_scope.
 
 Theorem C08_bit_pack_then_unpack : forall a b w,
@@ -69,6 +73,34 @@ Theorem C08_pk_decode_is_FIPS204 : forall P pk, In P all_params -> bytes_ok pk -
   pk_decode P pk = Ok (SpecConv.pkDecode (p_k P) pk).
 Proof. exact pk_decode_spec. Qed.
 
+(* canonical signatures: decode then encode is the identity on every accepted byte string *)
+Theorem C08_signature_reencodes : forall P sigma c z h, In P all_params -> bytes_ok sigma -> zlen sigma = p_sig_len P ->
+  sig_decode P sigma = Ok (c, z, h) -> sig_encode false P c z h = Ok sigma.
+Proof. exact sig_reencode. Qed.
+Theorem C08_sig_decode_injective : forall P sigma sigma' r, In P all_params ->
+  bytes_ok sigma -> zlen sigma = p_sig_len P -> bytes_ok sigma' -> zlen sigma' = p_sig_len P ->
+  sig_decode P sigma = Ok r -> sig_decode P sigma' = Ok r -> sigma = sigma'.
+Proof.
+  intros P sigma sigma' [[c z] h] HP Hb Hl Hb' Hl' E E'.
+  pose proof (sig_reencode P sigma c z h HP Hb Hl E) as R. pose proof (sig_reencode P sigma' c z h HP Hb' Hl' E') as R'.
+  rewrite R in R'. now inversion R'.
+Qed.
+(* and encode then decode returns the components (so sig_encode is injective on what signing produces) *)
+Theorem C08_signature_decodes_back : forall P c z h sigma, In P all_params ->
+  zlen c = p_lambda_div4 P -> bytes_ok c ->
+  rvec (p_gamma1 P - 1) (p_gamma1 P) (p_l P) z -> rvec 0 1 (p_k P) h -> sumZ (map sumZ h) <= p_omega P ->
+  sig_encode false P c z h = Ok sigma ->
+  bytes_ok sigma /\ zlen sigma = p_sig_len P /\ sig_decode P sigma = Ok (c, z, h).
+Proof. exact sig_decode_encode. Qed.
+(* the hint section alone, at the level of FIPS 204 Algorithms 20/21 *)
+Theorem C08_hint_section_canonical : forall omega (k : nat) y h, 0 <= omega -> HintProofs.bytes_ok y -> zlen y = omega + Z.of_nat k ->
+  SpecConv.HintBitUnpack omega k y = Some h -> SpecConv.HintBitPack omega h = y.
+Proof. exact HintBitPack_Unpack. Qed.
+
+Print Assumptions C08_signature_reencodes.
+Print Assumptions C08_sig_decode_injective.
+Print Assumptions C08_signature_decodes_back.
+Print Assumptions C08_hint_section_canonical.
 Print Assumptions C08_hint_unpack_is_FIPS204.
 Print Assumptions C08_sig_decode_is_FIPS204.
 Print Assumptions C08_pk_decode_is_FIPS204.
